@@ -75,6 +75,8 @@ func genOptsFor(profile string) GenOpts {
 		o.NoTies = true
 	case "nostartend":
 		o.NoStartEnd = true
+	case "fb":
+		o.Fallbacks = true
 	case "pairs", "hist", "subpairs":
 		o.Focus = profile
 	case "selpair":
